@@ -265,6 +265,9 @@ def main(argv=None):
                     cov[k] += v
                 elif isinstance(v, list) and isinstance(cov.get(k), list):
                     cov[k] = (cov[k] + v)[:12]
+                elif isinstance(v, dict) and isinstance(cov.get(k), dict):
+                    for kk, vv in v.items():
+                        cov[k][kk] = cov[k].get(kk, 0) + vv
                 else:
                     cov[k] = v
     ev = {"property_id": pid, "tier": tier, "seed": _SEED, "level": level, "coverage": cov,
